@@ -1,5 +1,5 @@
 import glob, os, re, subprocess, sys
-BASES=["f5f6197","6f2d858","b4d5c65"]; NEW=subprocess.run(["git","-C","/repo","rev-parse","HEAD"],capture_output=True,text=True).stdout.strip()
+BASES=["f5f6197","6f2d858","b4d5c65","a464373"]; NEW=subprocess.run(["git","-C","/repo","rev-parse","HEAD"],capture_output=True,text=True).stdout.strip()
 WT="/tmp/rebase_wt"
 subprocess.run(["git","-C","/repo","worktree","remove","--force",WT],capture_output=True)
 subprocess.run(["git","-C","/repo","worktree","add","-q","--detach",WT,BASES[0]],check=True)
@@ -46,6 +46,15 @@ for p in pats:
             l=re.sub(r"torch\.ones\((size=)?\(\)\)", lambda m: f"torch.ones({m.group(1) or ''}(), dtype=scale_dtype, device=scale_device)", l)
         out.append(l)
     open(fp,"w").write("\n".join(out))
+    # fix f8d5375: hook handles pushed on a per-instance stack
+    fp=os.path.join(WT,"optimum/quanto/calibrate.py")
+    c=open(fp).read()
+    if "self.hook_handles = []" not in c:
+        c=c.replace("        self.debug = debug\n","        self.debug = debug\n        # One pair of hook handles per entry: a mode object can be entered again while it is active\n        self.hook_handles = []\n",1)
+    c=re.sub(r"( +)self\.pre_handle = register_module_forward_pre_hook\(self\.calibrate_input\)\n +self\.post_handle = register_module_forward_hook\(self\.calibrate_output\)\n",
+             lambda m: f"{m.group(1)}self.hook_handles.append(\n{m.group(1)}    (\n{m.group(1)}        register_module_forward_pre_hook(self.calibrate_input),\n{m.group(1)}        register_module_forward_hook(self.calibrate_output),\n{m.group(1)}    )\n{m.group(1)})\n", c)
+    c=re.sub(r"( +)self\.pre_handle\.remove\(\)\n +self\.post_handle\.remove\(\)\n", lambda m: f"{m.group(1)}for handle in self.hook_handles.pop():\n{m.group(1)}    handle.remove()\n", c)
+    open(fp,"w").write(c)
     subprocess.run(["git","-C",WT,"add","-A","-N"],check=True)
     d=subprocess.run(["git","-C",WT,"diff",NEW,"--","."],capture_output=True,text=True).stdout
     open(p,"w").write(d)
